@@ -6,7 +6,7 @@ FL="$1"; REPO="${2:-/repo}"
 VERIF="$(cd "$(dirname "$0")/.." && pwd)"
 "$VERIF/checks/build_lib.sh" "$FL" "$REPO"
 B="$VERIF/build/$FL"; S="$VERIF/sim"; OUT="$VERIF/build/world_$FL"
-WRAP="-Wl,--wrap=malloc,--wrap=calloc,--wrap=realloc,--wrap=free,--wrap=aligned_alloc,--wrap=posix_memalign,--wrap=memalign"
+WRAP="-Wl,--wrap=malloc,--wrap=calloc,--wrap=realloc,--wrap=free,--wrap=aligned_alloc,--wrap=posix_memalign,--wrap=memalign,--wrap=malloc_usable_size"
 case "$FL" in
   tsan)  CXX=clang++-14; CC=clang-14; N=1; SAN="-fsanitize=thread"
          WRAP="$WRAP,--wrap=pthread_mutex_lock,--wrap=pthread_spin_lock,--wrap=pthread_rwlock_rdlock,--wrap=pthread_rwlock_wrlock,--wrap=pthread_once";;
